@@ -54,6 +54,10 @@ var tsLayouts = map[string]string{
 	"StampMicro":      "Jan _2 15:04:05.000000",
 	"SpaceNano":       "2006-01-02 15:04:05.000000000 -0700",
 	"RFC1123":         "Mon, 02 Jan 2006 15:04:05 MST", // prints the ABBREVIATION of the zone the instant is expressed in
+	// layouts whose literal text needs escaping inside a JSON / logfmt string
+	"TabMicro":      "2006-01-02\t15:04:05.000000Z07:00",
+	"QuoteHMS":      "15h04'05\"",
+	"BackslashDate": "2006\\01\\02 15:04:05",
 }
 
 // what a text in a layout carries (from Timestamp!LayoutInfo, via TLC)
